@@ -1,55 +1,56 @@
 import KinModel.Lemmas.C04Local5
 namespace KinModel.DocValidate
 
-/-- outside the exclusion classes the code's local checks are exactly the rules in force -/
-theorem localOK_eq_rules (T : Table) (o : Opts) (d : Doc) (hT : TableOK T = true) (hex : exclLocal o d = false) :
-    localOK T o d = rulesOK o d := by
+/-- outside the exclusion classes the code's local checks are exactly the rules in force (`vs`: the verdicts
+of the kids, which only `Encoding.Validate` looks at) -/
+theorem localOK_eq_rules (T : Table) (o : Opts) (d : Doc) (vs : List Bool) (hT : TableOK T = true)
+    (h7 : excl7Node d = false) (hi : exclInnerNode o d = false)
+    (hb : d.kind = .encoding → encHeadersBad T o d vs = false) (hwf : examplesWFor o d = true) :
+    localOK T o d vs = rulesOK o d := by
   cases d with | node k a kids =>
-  unfold exclLocal at hex
-  simp only [Bool.or_eq_false_iff] at hex
-  obtain ⟨⟨⟨⟨h7, hh⟩, hi⟩, he⟩, hhe⟩ := hex
   cases k
   all_goals first
-    | exact localOK_plainExt T o _ a kids hT (by decide)
-    | exact localOK_trivial T o _ a kids (by decide)
-    | exact localOK_ref T o _ a kids (by decide)
-    | exact localOK_parameters T o a kids
-    | exact localOK_components T o a kids hT
-    | exact localOK_schema T o a kids hT
-    | exact localOK_parameter T o a kids hT he
-    | exact localOK_mediaType T o a kids hT he
-    | exact localOK_paths T o a kids hT h7
-    | (rw [rulesOK_header T o a kids hT]
-       have hx : extKeysOK o a.exts = true := by simpa [exclHeaderNode, Doc.kind, Doc.attrs] using hh
-       have hy : headerExampleClause o (.node .header a kids) = true := by
-         unfold exclHeaderExampleNode at hhe
-         unfold headerExampleClause
-         simp only [Doc.kind, Doc.attrs, decide_true, Bool.true_and] at hhe ⊢
-         revert hhe
-         generalize exampleOK _ = A
-         generalize examplesGivenOK _ = C
-         cases a.flag "hasSchema" <;> cases o.exDisabled <;> cases A <;> cases C <;> simp
-       simp [hx, hy])
-    | (rw [rulesOK_inner T o a kids]
+    | exact localOK_plainExt T o _ a kids vs hT (by decide)
+    | exact localOK_trivial T o _ a kids vs (by decide)
+    | exact localOK_ref T o _ a kids vs (by decide)
+    | exact localOK_parameters T o a kids vs
+    | exact localOK_components T o a kids vs hT
+    | exact localOK_schema T o a kids vs hT
+    | exact localOK_parameter T o a kids vs hT hwf
+    | exact localOK_mediaType T o a kids vs hT hwf
+    | exact localOK_header T o a kids vs hT hwf
+    | exact localOK_paths T o a kids vs hT h7
+    | exact localOK_encoding T o a kids vs hT (hb rfl)
+    | (rw [rulesOK_inner T o a kids vs]
        have hx : refSibsOK o a = true := by simpa [exclInnerNode, Doc.kind, Doc.attrs] using hi
        simp [hx])
 
-/-- apart from the external-example class the code's local checks are never stricter than the rules -/
-theorem localOK_of_rulesOK (T : Table) (o : Opts) (d : Doc) (hT : TableOK T = true) (he : exclExternalNode o d = false)
-    (h : rulesOK o d = true) : localOK T o d = true := by
+/-- the same, with the model's own verdicts of the kids -/
+theorem localOKV_eq_rules (T : Table) (o : Opts) (d : Doc) (hT : TableOK T = true)
+    (hex : exclLocal T o d = false) (hwf : examplesWFor o d = true) : localOKV T o d = rulesOK o d := by
+  unfold exclLocal at hex
+  simp only [Bool.or_eq_false_iff] at hex
+  obtain ⟨⟨h7, hi⟩, he⟩ := hex
+  refine localOK_eq_rules T o d _ hT h7 hi (fun hk => ?_) hwf
+  simpa [exclEncNode, hk] using he
+
+/-- the code's local checks are never stricter than the rules -/
+theorem localOK_of_rulesOK (T : Table) (o : Opts) (d : Doc) (vs : List Bool) (hT : TableOK T = true)
+    (hwf : examplesWFor o d = true) (h : rulesOK o d = true) : localOK T o d vs = true := by
   cases d with | node k a kids =>
   cases k
   all_goals first
-    | (rw [localOK_plainExt T o _ a kids hT (by decide)]; exact h)
-    | (rw [localOK_trivial T o _ a kids (by decide)]; exact h)
-    | (rw [localOK_ref T o _ a kids (by decide)]; exact h)
-    | (rw [localOK_parameters T o a kids]; exact h)
-    | (rw [localOK_components T o a kids hT]; exact h)
-    | (rw [localOK_schema T o a kids hT]; exact h)
-    | (rw [localOK_parameter T o a kids hT he]; exact h)
-    | (rw [localOK_mediaType T o a kids hT he]; exact h)
-    | exact localOK_paths_of_rules T o a kids hT h
-    | (rw [rulesOK_header T o a kids hT, Bool.and_eq_true, Bool.and_eq_true] at h; exact h.1.1)
-    | (rw [rulesOK_inner T o a kids, Bool.and_eq_true] at h; exact h.2)
+    | (rw [localOK_plainExt T o _ a kids vs hT (by decide)]; exact h)
+    | (rw [localOK_trivial T o _ a kids vs (by decide)]; exact h)
+    | (rw [localOK_ref T o _ a kids vs (by decide)]; exact h)
+    | (rw [localOK_parameters T o a kids vs]; exact h)
+    | (rw [localOK_components T o a kids vs hT]; exact h)
+    | (rw [localOK_schema T o a kids vs hT]; exact h)
+    | (rw [localOK_parameter T o a kids vs hT hwf]; exact h)
+    | (rw [localOK_mediaType T o a kids vs hT hwf]; exact h)
+    | (rw [localOK_header T o a kids vs hT hwf]; exact h)
+    | exact localOK_paths_of_rules T o a kids vs hT h
+    | exact localOK_encoding_of_rules T o a kids vs hT h
+    | (rw [rulesOK_inner T o a kids vs, Bool.and_eq_true] at h; exact h.2)
 
 end KinModel.DocValidate
